@@ -286,8 +286,14 @@ def str_slice(I, s, sl):
             return default
         zb_ = zi(b)
         if isinstance(b, int):
-            if b >= 0:
+            if b == 0:
+                return z3.IntVal(0)
+            if b > 0:
+                if I.ctx.check(n < b)[0] == "unsat":
+                    return z3.IntVal(b)
                 return z3.If(n < b, n, z3.IntVal(b))
+            if I.ctx.check(n + b < 0)[0] == "unsat":
+                return n + b
             return z3.If(n + b < 0, z3.IntVal(0), n + b)
         # symbolic bound: if the path condition already puts it inside [0, n] use it as it is
         if I.ctx.check(z3.Not(z3.And(zb_ >= 0, zb_ <= n)))[0] == "unsat":
@@ -296,7 +302,15 @@ def str_slice(I, s, sl):
     lo = bound(sl.lo, z3.IntVal(0))
     hi = bound(sl.hi, n)
     if I.ctx.check(z3.Not(hi >= lo))[0] == "unsat":
-        return mk_str(z3.SubString(z, lo, hi - lo))
+        r = z3.SubString(z, lo, hi - lo)
+        # instances of the decomposition lemma  z == z[:lo] ++ z[lo:hi] ++ z[hi:]  (sound; helps the solver)
+        if sl.hi is None and not z3.is_string_value(z):
+            I.ctx.assume(z == z3.Concat(z3.SubString(z, 0, lo), r))
+            I.ctx.assume(z3.Length(r) == n - lo)
+        elif sl.lo is None and not z3.is_string_value(z):
+            I.ctx.assume(z == z3.Concat(r, z3.SubString(z, hi, n - hi)))
+            I.ctx.assume(z3.Length(r) == hi)
+        return mk_str(r)
     return mk_str(z3.If(hi > lo, z3.SubString(z, lo, hi - lo), z3.StringVal("")))
 
 
@@ -1359,7 +1373,9 @@ def _in_chars(I, args, kwargs):
     chars = "".join(iterate(I, chars)) if not isinstance(chars, str) else chars
     if isinstance(s, str):
         return all(c in chars for c in s)
-    return mk_bool(z3.InRe(zs(s), z3.Star(regex2smt.charset_regex(chars))))
+    R = z3.Star(regex2smt.charset_regex(chars))
+    I.ctx.star_candidates.setdefault(str(zs(s)), []).append(R)
+    return mk_bool(z3.InRe(zs(s), R))
 
 
 @_native("no_chars")
@@ -1369,7 +1385,9 @@ def _no_chars(I, args, kwargs):
     chars = "".join(iterate(I, chars)) if not isinstance(chars, str) else chars
     if isinstance(s, str):
         return all(c not in chars for c in s)
-    return mk_bool(z3.InRe(zs(s), z3.Star(regex2smt.not_charset_regex(chars))))
+    R = z3.Star(regex2smt.not_charset_regex(chars))
+    I.ctx.star_candidates.setdefault(str(zs(s)), []).append(R)
+    return mk_bool(z3.InRe(zs(s), R))
 
 
 @_native("is_str")
@@ -1416,6 +1434,15 @@ def _code(I, args, kwargs):
     if isinstance(c, str):
         return ord(c)
     return mk_int(z3.StrToCode(zs(c)))
+
+
+@_native("int_value")
+def _int_value(I, args, kwargs):
+    """spec-side: mathematical value of a digit string (no digit-count limit)"""
+    s, base = args[0], (args[1] if len(args) > 1 else 10)
+    if isinstance(s, str):
+        return int(s, base)
+    return mk_int(I.ctx.int_value(zs(s), base))
 
 
 @_native("char")
